@@ -30,3 +30,6 @@ int fx1_clear_stale(char *dest, size_t dmax, const char *src) {        /* clears
     memset(dest, 0, odmax);
     return 2;
 }
+/* wrapper rule fixtures: two _chk functions with (dest, dmax, src, slen, destbos, srcbos) */
+int _fx1_copy_ok_chk(char *dest, size_t dmax, const char *src, size_t slen, size_t destbos, size_t srcbos) { (void)dest; (void)dmax; (void)src; (void)slen; return destbos > srcbos; }
+int _fx1_copy_swapped_chk(char *dest, size_t dmax, const char *src, size_t slen, size_t destbos, size_t srcbos) { (void)dest; (void)dmax; (void)src; (void)slen; return destbos > srcbos; }
